@@ -126,6 +126,18 @@ def run(ctx):
                 seen_block |= {k for k, v in d.items() if (v if k != "sv" else not v)}
             else:
                 ok = all_decided    # may be true or a prefix comparison, but only after every blocker answered no
+                mode = [variant_name(v) for k, v in path.decisions if k == "discr(arg3)"]
+                if ok and mode and mode[0] in ("Crate", "Module"):
+                    # the prefix comparison is full equality of segments (aliases included), on both trees' paths
+                    full = "PartialEq" in ret and "::eq(" in ret and "arg1.path" in ret and "arg2.path" in ret
+                    if not full:
+                        ok = False
+                        r.violation(B, "share_prefix[%s] compares with %s" % (mode[0], short(ret).split("(")[0][-50:]),
+                                    "two trees share a %s prefix only when the prefix segments are equal including their aliases; "
+                                    "an alias-insensitive comparison lets `use foo as bar;` merge with `use foo;` and one of them "
+                                    "is lost" % mode[0], ["%s:%d" % (sp.file, sp.line)])
+                elif ok and mode and mode[0] == "One" and ret != "true":
+                    ok = False
             r.cells(B, 1)
             r.instance(B, "share_prefix%s" % sorted(d.items()), "ok" if ok else "violation", "%s:%d" % (sp.file, sp.line), ret[-40:])
             if not ok:
@@ -139,6 +151,7 @@ def run(ctx):
                         "the merge guard lost its test %s" % conds[m], ["%s:%d" % (sp.file, sp.line)])
 
     visibility_tables(ctx)
+    alias_insensitive_drop(ctx, "R10-e")
     C = r.rule("R10-c", "group_imports: every path through one loop iteration pushes the tree into exactly one of the groups")
     gi = p.fn("rustfmt_nightly::reorder::group_imports")
     if gi is None:
@@ -250,3 +263,45 @@ def visibility_tables(ctx):
             if not ok:
                 r.violation(D, "same_visibility[%s,%s,%s] = %s" % (va, vb, inner, short(ret)[-40:]),
                             "a missing visibility must equal only an inherited one", ["%s:%d" % (g.file, g.line)])
+
+
+def alias_insensitive_drop(ctx, rid):
+    """R10-e: a tree is dropped as a duplicate only when it *is* one"""
+    p, r = ctx.p, ctx.r
+    r.rule(rid, "UseTree::merge computes the common prefix with equal_except_alias at the root; merge_rest then returns None "
+                "(the second tree is discarded as identical) when both paths are exhausted — that is sound only if the two paths "
+                "were compared for full equality on that path")
+    mg = p.named("merge", within="imports::UseTree")
+    mr = p.fn("rustfmt_nightly::imports::merge_rest")
+    if mg is None or mr is None:
+        r.undecidable(rid, "UseTree::merge / merge_rest not found")
+        return
+    uses_eea = any(c.name.endswith("UseSegment::equal_except_alias") for c in mg.calls())
+    try:
+        paths = explore(mr, pure=lambda c: c.name.endswith("::len") or c.declared in ("std::cmp::PartialEq::eq", "std::cmp::PartialEq::ne"),
+                        max_paths=20000)
+    except TooManyPaths as e:
+        r.undecidable(rid, str(e))
+        return
+    r.paths(rid, len(paths))
+    n = 0
+    for path in paths:
+        if path.end != "ret" or path.ret is None or vkey(path.ret) != "None":
+            continue
+        lens = [(k, v) for k, v in path.decisions if "::len(" in k and " Eq arg3" in k.replace("(", " ").replace(")", " ") or
+                ("::len(" in k and "Eq" in k)]
+        both_exhausted = sum(1 for k, v in path.decisions if "::len(arg" in k and ("Eq" in k and v is True or "Ne" in k and v is False)) >= 2
+        if not both_exhausted:
+            continue
+        n += 1
+        full_eq = any(("PartialEq" in k or "::eq(" in k or "::ne(" in k) and "::len(" not in k for k, v in path.decisions)
+        ok = full_eq or not uses_eea
+        key = "merge_rest discards a tree equal only up to the alias of its root"
+        r.instance(rid, key, "ok" if ok else "violation", "%s:%d" % (mr.file, mr.line),
+                   "merge uses equal_except_alias=%s; full equality tested on the None path=%s" % (uses_eea, full_eq))
+        if not ok:
+            r.violation(rid, key,
+                        "`use foo as bar; use foo;` (granularity Module/One) and `use b as b2; use b;` lose the second import: merge "
+                        "treats roots that differ only in their alias as a common prefix and merge_rest returns None (= identical) "
+                        "when both paths end there", ["%s:%d" % (mr.file, mr.line), "%s:%d" % (mg.file, mg.line)])
+    r.floor(rid, n, 1, "None-returning `both exhausted` paths of merge_rest")
